@@ -295,11 +295,29 @@ class SerialSim:
 
     def confirm(self, written):
         """the gateway confirms the frame it was asked to send (`written` = bytes of our write)"""
+        for rep in self.confirmations(written):
+            self.feed(rep)
+
+    def frame_of_write(self, written):
+        """the DALI frame bytes in one of our writes"""
         if self.kind == "luba":
-            nbytes = written[4] // 8
-            data = list(written[6:6 + nbytes])
+            return bytes(written[6:6 + written[4] // 8])
+        n = {2: 1, 3: 2, 8: 3}[written[0] & 0x0F]
+        return bytes(written[1:1 + n])
+
+    def confirmations(self, written):
+        """the gateway's "frame sent" report(s) for one of our writes, as separate byte strings"""
+        if self.kind == "luba":
+            data = list(self.frame_of_write(written))
             twice = bool(written[5] & 0x80)
-            for _ in range(2 if twice else 1):
-                self.feed(luba_txconf(7, data))
-        else:
-            self.feed(sci_frame(0x10, 0, 0, 0))
+            return [luba_txconf(7, data) for _ in range(2 if twice else 1)]
+        return [sci_frame(0x10, 0, 0, 0)]
+
+    def outcome_report(self, bus):
+        """what the gateway reports for the bus outcome after our frame: nothing (silence), the 8-bit
+        backward frame, or the framing error it only reports as an error event"""
+        if bus == "s":
+            return []
+        if bus == "g":
+            return [luba_event(2, 63, []) if self.kind == "luba" else sci_frame(0x17, 0, 0, 3)]
+        return [luba_rx([int(bus[1:])]) if self.kind == "luba" else sci_rx([int(bus[1:])])]
